@@ -14,7 +14,8 @@
           explicit pairs are grouped by the layer of the object-side module
   C05.R5  layer lookup (rules/c05_names.py): F-NAME sites reachable from LayerMapping.get_layer_for_module_name compare whole dotted
           components; every ancestor-or-self of the name, the top-level one included, is tested (scan over all listed names, or a
-          walk over derived names that is unrolled abstractly on 1-3 component names: rules/c05_walk.py)
+          walk over derived names that is unrolled abstractly on 1-3 component names: rules/c05_walk.py); a binary search over the
+          listed names compares the probe under the order the list was sorted by (rules/c05_bisect.py)
   C05.R6  closures created in a loop / comprehension bind the loop's variables at creation time (late-binding lint)
   C05.R7  regex layers (conversion *and* rebuilt layer mapping) are resolved against the evaluable being judged: per evaluation a
           fresh matcher is built or the resolution runs unconditionally
